@@ -113,7 +113,7 @@ module.exports = {
   fs.writeFileSync(path.join(work, "node_modules/@babel/code-frame/package.json"), '{"name":"@babel/code-frame","main":"index.js"}');
   fs.writeFileSync(path.join(work, "node_modules/commander/index.js"), "class Command { name() { return this; } description() { return this; } option() { return this; } parse() { return this; } opts() { return globalThis.__beff_cli_opts; } }\nmodule.exports = { Command };\n");
   fs.writeFileSync(path.join(work, "node_modules/commander/package.json"), '{"name":"commander","main":"index.js"}');
-  fs.writeFileSync(path.join(work, "node_modules/chokidar/index.js"), "module.exports = { watch(p) { const w = { on(ev, cb) { globalThis.__watchers.push({ path: p, ev, cb }); return w; } }; return w; } };\n");
+  fs.writeFileSync(path.join(work, "node_modules/chokidar/index.js"), "module.exports = { watch(p) { const w = { on(ev, cb) { globalThis.__watchers.push({ path: p, ev, cb, w }); return w; }, close() { globalThis.__watchers = globalThis.__watchers.filter((x) => x.w !== w); return Promise.resolve(); }, add() { return w; }, unwatch() { return w; }, off() { return w; }, removeAllListeners() { globalThis.__watchers = globalThis.__watchers.filter((x) => x.w !== w); return w; } }; return w; } };\n");
   fs.writeFileSync(path.join(work, "node_modules/chokidar/package.json"), '{"name":"chokidar","main":"index.js"}');
   const require = createRequire(path.join(work, "ts-node/x.js"));
   // one watch process = one evaluation of all four modules
